@@ -1154,7 +1154,7 @@ def run(tier, seed, replay=None):
     ok = core.proof_stage(ctx, ["Props/C05.vo"], gen_needed=("BitFns", "Consts"))
     if not ok:
         core.broken_proof(ctx, search)
-    n = 300 if tier == "quick" else 4000
+    n = 240 if tier == "quick" else 4000
     cases = probe_cases() + [gen_case(ctx.rng, tier) for _ in range(n)]
     if tier == "thorough":
         cases.extend(exhaustive_cases(ctx.rng))
@@ -1179,7 +1179,7 @@ def run(tier, seed, replay=None):
         return obs
 
     core.corr_stage(ctx, cases, observe_counting, to_coq, HEADER, "case_ok", oracle=oracle,
-                    show_fn="case_run", nontrivial=nontrivial, search=search, shard=60 if tier == "quick" else 120,
+                    show_fn="case_run", nontrivial=nontrivial, search=search, shard=32 if tier == "quick" else 120,
                     sample_fn=sample_fn)
     return ctx.finish(level="proof",
                       rule="fixed probe cases + random op histories: 1-40 tree occurrences drawn with skewed multiplicities from a pool of 1-5 trees over 4-12 taxa spanning the namespace, rooted/unrooted/undefined/mixed rooting, dyadic or absent weights, SplitDistribution or TreeArray path, interleaved count/update/query/calc, thresholds k/ntrees or p/q (q<=20), default and None, every set_edge_lengths mode, percentages, labels, collapse, scores; thorough adds multisets of 3 trees over all 4-taxon shapes x thresholds k/6; a case is non-trivial when >=2 distinct pool trees were counted and some cached frequency lies strictly between 0 and 1; distinct by full case content")
